@@ -68,10 +68,24 @@ CHECKS = {
              "open a scope in Garden, so such lets are toplevel variables and the property text is ambiguous about them).",
         design_ref="DESIGN.md section 3, C10",
     ),
+    "C11": dict(
+        engine="sessim",
+        category="exploration",
+        technique="deterministic simulation of incremental session histories with transparent faults (interrupt at step k "
+                  "+ :resume, read-only commands, bursts); refinement against a one-request batch reference model",
+        text="Seeded error-free histories of 2..9 inputs (unique definitions, toplevel lets, assignments, loops, prints, a "
+             "final expression folding all live state) are run incrementally fault-free, incrementally with transparent "
+             "faults, and as one concatenated request in a fresh session; the last value text and the concatenated output "
+             "must agree. The two incremental configurations are counted and reported separately.",
+        note="Without the fault configuration this is differential testing of histories; the object is a stateful server "
+             "and the persistence between requests and the interleaved interrupts are what the simulator owns. Histories "
+             "whose batch run is not error-free are skipped and counted.",
+        design_ref="DESIGN.md section 3, C11",
+    ),
 }
 
 PENDING = {p: "claimed in DESIGN.md; its check is not built yet, so nothing is claimed for it in this manifest"
-           for p in ["C11", "C24", "C25", "C26", "C28", "C30", "C31"]}
+           for p in ["C24", "C25", "C26", "C28", "C30", "C31"]}
 
 NOT_APPLICABLE = {
     "C01": "lex/parse/check never crash: a pure function of one source string; no schedule, clock, fault or history to simulate (fuzzing territory)",
